@@ -8,7 +8,7 @@ from .astutil import norm, parse_opts
 from .common import Check, Model
 
 ASSUMPTIONS = [
-    "C11 model: Lang/Visit.v, a recursive (specification-shaped) traversal with scripted visitors and the ParallelVisitor skipping table; the explicit-stack machine of visitor.py is tied to it by correspondence, not by a refinement proof",
+    "C11 model: Lang/Visit.v, a recursive (specification-shaped) traversal with scripted visitors and the ParallelVisitor skipping table; the explicit-stack loop of visit() is modelled step by step in Lang/VisitMachine.v and proved to refine it for every visitor incl. all edits (Properties/C11mach.v); the extracted machine is run against the real visit() on every case",
     "visitor method dispatch by name (enter_field vs enter) is Python reflection and only explored",
     "nodes are identified by (kind, loc.start, loc.end); replacement subtrees carry synthetic locations",
     "result value after BREAK that follows an edit is unspecified (graphql-js returns the last edit of the current level); only the call log is compared for such runs",
@@ -257,8 +257,8 @@ def run(tier):
     global kc_global
     ck = Check("C11", tier)
     ck.assumptions += ASSUMPTIONS
-    br = common.build("C11")
-    ck.proofs(br)
+    br = common.build("C11", models=("lang", "visitm"), extra_targets=("theories/Properties/C11mach.vo",))
+    ck.proofs(br, extra_files=("C11mach",))
     if not br.ok:
         return ck.finish()
     m = Model()
@@ -330,6 +330,9 @@ def run(tier):
             cases.append([21, FUEL] + tree + enc)
             meta.append(("par", root, ids, scs))
     outs = m.run_batch(cases)
+    # the extracted explicit-stack MACHINE (proved to refine the recursive model) vs the real visit()
+    from . import cvisitm
+    cvisitm.core(ck, tier, True, cases=cases, meta=meta)
     from graphql.language import print_ast
     for (mode, root, ids, sc), out in zip(meta, outs):
         before = norm(root)
